@@ -825,6 +825,15 @@ Fixpoint find_const (P : prog) (depth : nat) (cls a : string) : option expr :=
       end
   end.
 
+(** ADDITIVE (pl15): what [callable(v)] answers.  An instance is callable iff its class (or a base)
+    defines __call__; functions, builtins / bound methods, classes, CRC functions are; data values are not. *)
+Definition py_callable (P : prog) (v : pv) : bool :=
+  match v with
+  | PObj c _ => match find_method P mro_depth c "__call__" with Some _ => true | None => false end
+  | PFunc _ | PBuiltin _ | PCls _ | PCrc _ => true
+  | _ => false
+  end.
+
 Fixpoint enum_by_value (ms : list (string * Z)) (z : Z) : option string :=
   match ms with
   | [] => None
@@ -1004,11 +1013,7 @@ Section Interp.
           (* ADDITIVE (pl15): callable(v).  An instance is callable iff its class (or a base) defines
              __call__; functions, builtins, classes, CRC functions are; data values are not. *)
           match args with
-          | [v] => Ok (PBool (match v with
-                              | PObj c _ => match find_method P mro_depth c "__call__" with Some _ => true | None => false end
-                              | PFunc _ | PBuiltin _ | PCls _ | PCrc _ => true
-                              | _ => false
-                              end))
+          | [v] => Ok (PBool (py_callable P v))
           | _ => Exc "TypeError"
           end
         else call_builtin P n args
